@@ -59,6 +59,17 @@ class P(framework.Prop):
                     for d in rng.sample(DOCS, 2):
                         ops.append("search %d %s" % (h, wire.val(d)))
             out.append("hist " + " ; ".join(ops))
+        # every custom signature shape against every literal argument tuple (element-wise checks of typed arrays, nested typed arrays, unions,
+        # variadic tails): validated before the closure runs, and the closure receives the evaluated arguments
+        lits = [c for c in CALLS if "`" in c and c.count("%s") == 1] + ["%s(a)", "%s(c)", "%s(a, c)", "%s(c, c, c)"]
+        for sig in SIGS:
+            if sig == "-":
+                continue
+            for tpl in lits:
+                ops = ["new 1", "reg 1 %s 201 %s" % (wire.s("f"), sig), "get 1 %s" % wire.s("f"), "compile 1 1 %s" % wire.s(tpl % "f"),
+                       "search 1 %s" % wire.val(DOCS[0]), "search 1 %s" % wire.val(DOCS[1]), "search 1 %s" % wire.val({"a": [[1, 2], ["a"]], "c": [[1], [2, 3]]}),
+                       "search 1 %s" % wire.val({"a": [1, "a", 2], "c": [1, 2]})]
+                out.append("hist " + " ; ".join(ops))
         return out
 
     def nontrivial(self, case, mobs):
